@@ -159,15 +159,113 @@ func (e *engine) planFinish(targetIdx int) finishPlan {
 		memo[n] = v
 		return v
 	}
+	e.handoverInvalid, e.handoverReprocess = 0, len(p.reprocess)
 	for _, n := range e.nodes {
 		if n.st == stProcessing {
 			p.proc = append(p.proc, n)
 			if ancOK(n) {
 				p.expectRun[n] = true
+				if n.b.Invalid {
+					// will be re-verified and refused by the chain; nothing decides it while the finish runs
+					e.handoverInvalid++
+				}
 			}
 		}
 	}
 	return p
+}
+
+// handoverProbe observes HealthCheck while FinishStateSync is in progress:
+// a health probe (AvalancheGo's health goroutine, HealthCheck takes no lock)
+// issued at the start of every chain callback the finish makes on its own
+// goroutine - 2 per reprocessed block, 1 per re-verified block. While the
+// finish has not returned and a processing block that fails its re-verification
+// is undecided, the node must not report healthy (which checker says so is not
+// judged). The probe blocks the finish's goroutine, so the finish cannot return
+// while a probe is in flight.
+type handoverProbe struct {
+	goid      uint64
+	invalid   int // processing blocks that fail their own re-verification, undecided during the whole finish
+	reprocess int // accepted blocks the finish executes and accepts first (2 callbacks each)
+
+	mu         sync.Mutex
+	probes     int
+	asserted   int
+	unhealthy  int
+	healthy    int // healthy answers while invalid > 0 (violations)
+	inReverify int // asserted probes issued from a re-verification callback
+	blocked    bool
+}
+
+// arm is called on the goroutine that is about to call FinishStateSync.
+func (hp *handoverProbe) arm(e *engine) {
+	hp.goid = curGoid()
+	hp.invalid, hp.reprocess = e.handoverInvalid, e.handoverReprocess
+	vm, ctx, cc := e.vm, e.ctx, e.cc
+	e.chain.setOnProbe(func(kind string) {
+		if curGoid() != hp.goid {
+			return // a callback of somebody else (async accepter, the engine's own Verify)
+		}
+		hp.mu.Lock()
+		if hp.blocked {
+			hp.mu.Unlock()
+			return
+		}
+		hp.probes++
+		idx := hp.probes
+		// the finish reprocesses first (verify+accept pairs) and re-verifies afterwards
+		reverify := idx > 2*hp.reprocess
+		hp.mu.Unlock()
+		var err error
+		var details any
+		done := kit.Go(func() {
+			e.r.Guard("HealthCheck", cc.witness(), func() { details, err = vm.HealthCheck(ctx) })
+		})
+		select {
+		case <-done:
+		case <-time.After(forcedEscape):
+			// liveness escape for a wrapper whose HealthCheck waits for the finish; no verdict
+			hp.mu.Lock()
+			hp.blocked = true
+			hp.mu.Unlock()
+			return
+		}
+		hp.mu.Lock()
+		defer hp.mu.Unlock()
+		if hp.invalid == 0 {
+			return
+		}
+		hp.asserted++
+		if reverify {
+			hp.inReverify++
+		}
+		if err != nil {
+			hp.unhealthy++
+			return
+		}
+		hp.healthy++
+		if hp.healthy == 1 {
+			cc.violation("healthy-during-handover", "HealthCheck = healthy (%v) in chain callback #%d (%s, re-verification phase: %v) of a FinishStateSync that has not returned, although %d processing block(s) that fail re-verification are undecided", details, idx, kind, reverify, hp.invalid)
+		}
+	})
+}
+
+func (hp *handoverProbe) disarm(e *engine) { e.chain.setOnProbe(nil) }
+
+// fold is called on the engine thread after FinishStateSync returned.
+func (hp *handoverProbe) fold(e *engine) {
+	hp.mu.Lock()
+	defer hp.mu.Unlock()
+	e.stat["handover_health_probes"] += hp.probes
+	e.stat["handover_health_probes_asserted"] += hp.asserted
+	e.stat["handover_health_probes_asserted_in_reverification"] += hp.inReverify
+	e.stat["handover_health_unhealthy_observed"] += hp.unhealthy
+	if hp.asserted > 0 {
+		e.stat["handover_finishes_probed_with_invalid_processing"]++
+	}
+	if hp.blocked {
+		e.stat["handover_health_probe_blocked"]++
+	}
 }
 
 // judgeFinish compares the chain callbacks FinishStateSync produced with the plan.
@@ -306,7 +404,11 @@ func (e *engine) finish(cfg c21Cfg, racingAccept *node) {
 
 	v0, a0 := e.chain.marks()
 	var err error
+	hp := &handoverProbe{}
 	call := func() {
+		// planFinish ran on the engine thread before call is invoked (possibly on another goroutine)
+		hp.arm(e)
+		defer hp.disarm(e)
 		e.r.Guard("FinishStateSync", e.cc.witness(), func() { err = e.vm.FinishStateSync(e.ctx, target.b, out, acc) })
 	}
 	var plan finishPlan
@@ -321,6 +423,7 @@ func (e *engine) finish(cfg c21Cfg, racingAccept *node) {
 	default:
 		plan = e.raceFinish(cfg, targetIdx, racingAccept, call)
 	}
+	hp.fold(e)
 	if err != nil {
 		e.fail("finish-error", "FinishStateSync(%s) with tip %s failed: %v", target.b, e.last.b, err)
 		return
@@ -797,12 +900,13 @@ func runC21Case(t testing.TB, r *kit.Run, idx int, seed [2]uint64) c20Result {
 
 func TestC21(t *testing.T) {
 	r := kit.Start(t, "C21", "exploration")
-	r.Rule("case = VM config (caches in {1,2,4,128}, async accept lag bound in {0,1,3}), VM started without state (70%) or with state and 0..3 normally executed blocks (30%), StartStateSync at the last accepted block or at a block 1..5 heights ahead, 4..39 vacuous engine actions (parse+verify valid/invalid blocks on processing/last-accepted parents, re-parse, set preference, accept 1..3 valid blocks with transitive rejection), FinishStateSync at a target anywhere between the start and the tip - from the engine thread, or (35%) concurrently with the rejections that follow an accept, run inside a uniformly chosen chain callback of the finish (or unsynchronised), or (~20%) overlapped by the engine's Verify of a new valid/invalid block (child of the tip or of a processing block) called from the engine thread while the finish sits in a uniformly chosen chain callback on the syncer's goroutine - then 0..24 normal engine actions and (80%) consensus deciding every invalid processing block. " +
+	r.Rule("case = VM config (caches in {1,2,4,128}, async accept lag bound in {0,1,3}), VM started without state (70%) or with state and 0..3 normally executed blocks (30%), StartStateSync at the last accepted block or at a block 1..5 heights ahead, 4..39 vacuous engine actions (parse+verify valid/invalid blocks on processing/last-accepted parents, re-parse, set preference, accept 1..3 valid blocks with transitive rejection), FinishStateSync at a target anywhere between the start and the tip - from the engine thread, or (35%) concurrently with the rejections that follow an accept, run inside a uniformly chosen chain callback of the finish (or unsynchronised), or (~20%) overlapped by the engine's Verify of a new valid/invalid block (child of the tip or of a processing block) called from the engine thread while the finish sits in a uniformly chosen chain callback on the syncer's goroutine - then 0..24 normal engine actions and (80%) consensus deciding every invalid processing block. In every mode a health probe (HealthCheck from a second goroutine) is issued at the start of every chain callback FinishStateSync makes on its own goroutine (2 per reprocessed block, 1 per re-verified block). " +
 		"Non-trivial = the finish reprocessed accepted blocks or re-verified / skipped processing blocks; distinct = (config, action kind sequence).")
 	r.Assume(
 		"the state of a block is modelled as the hash chain H(parent state || block id); the target's state handed to FinishStateSync is the one a node that executed the chain would have",
 		"consensus only accepts valid blocks and only issues snowman-consistent calls; Reject is not serialised with FinishStateSync (it does not take the chain lock; FinishStateSync is called from the syncer's goroutine in vm/statesync.go)",
 		"health: asserted unhealthy while a block that itself failed re-verification is undecided, asserted healthy once every block that failed or was skipped because of a failed ancestor is rejected; not asserted in between and not asserted during the sync (counted)",
+		"health during the hand-over: while FinishStateSync has not returned and a processing block that will fail its own re-verification is undecided, a probe must not answer healthy; which checker reports unhealthy (not ready / unresolved blocks) is not judged, and nothing is asserted when only valid or skipped blocks are processing. A probe that does not return within 1 s (a HealthCheck that waits for the finish) stops the probing of that finish, without verdict",
 		"the order of re-verification is only constrained by parents-before-children (the parent output must exist); height inversions are counted, not judged",
 		"quiescence point = VM.Shutdown (waits for the async accepter)",
 		"a Verify that overlaps FinishStateSync is judged after both returned: the VM is then ready, so a successful Verify means the block is processing and the chain must have verified it on its parent's state (during the finish or after it); a valid one that is a child of the last accepted block must be acceptable. The bounded naps that keep the finish's callback open only steer the schedule",
